@@ -1769,3 +1769,130 @@ def _rawcall(w, c):
         if objs:
             return Multi(objs)
     return None
+
+
+# ---------------------------------------------------------------------------
+# printable forms (C19): small trusted lexers turn the produced text into digit tokens and layout facts
+
+import re as _re
+_ANSI = _re.compile(r'\x1b\[[0-9;]*m')
+
+
+def _lex_literals(text):
+    """'0x1f, 0b101' -> [[4, 1, 15], [6, 1, 0, 1]] ; raises ValueError if anything else is in the text"""
+    toks = []
+    for part in [p.strip() for p in text.split(',')]:
+        if part == '':
+            continue
+        if part.startswith('0x'):
+            toks.append([4] + [int(ch, 16) for ch in part[2:]])
+        elif part.startswith('0b'):
+            toks.append([6] + [int(ch, 2) for ch in part[2:]])
+        elif part.startswith('0o'):
+            toks.append([5] + [int(ch, 8) for ch in part[2:]])
+        else:
+            raise ValueError('unexpected text in str(): %r' % part)
+    return toks
+
+
+@op('str_lex')
+def _str_lex(w, c):
+    s = str(T(w, c))
+    trunc = s.endswith('...')
+    body = s[:-3] if trunc else s
+    try:
+        toks = _lex_literals(body)
+    except ValueError:
+        return enc.OPAQUE
+    return Multi([[9, int(trunc)]] + toks, ['raw'] * (1 + len(toks)))
+
+
+@op('repr_eval')
+def _repr_eval(w, c):
+    t = T(w, c)
+    r = repr(t)
+    if '...' in r:
+        m = _re.search(r'#\s*length=(\d+)', r)
+        return Multi([[9, 1], [9, int(m.group(1)) if m else -1]], ['raw', 'raw'])
+    bs = w.bs
+    obj = eval(r, {'Bits': bs.Bits, 'BitArray': bs.BitArray, 'ConstBitStream': bs.ConstBitStream, 'BitStream': bs.BitStream})
+    return Multi([[9, 0], obj], ['raw', None])
+
+
+@op('arepr_eval')
+def _arepr_eval(w, c):
+    a = T(w, c)
+    bs = w.bs
+    obj = eval(repr(a), {'Array': bs.Array, 'BitArray': bs.BitArray, 'Bits': bs.Bits, 'inf': float('inf'), 'nan': float('nan')})
+    same = isinstance(obj, bs.Array) and obj.dtype == a.dtype and obj.equals(a)
+    return Multi([[9, int(same)], obj], ['raw', None])
+
+
+_RADIX = {'bin': (6, 2), 'b': (6, 2), 'hex': (4, 16), 'h': (4, 16), 'oct': (5, 8), 'o': (5, 8)}
+
+
+def _lex_part(text, name, sep):
+    """one format's part of a pp line -> list of groups, each a list of digits"""
+    tag, base = _RADIX[name]
+    chunks = text.split(sep) if sep else [text]
+    groups = []
+    for ch in chunks:
+        ch = ch.strip()
+        if ch == '':
+            continue
+        groups.append([int(x, base) for x in ch])
+    return groups
+
+
+@op('pp_lex')
+def _pp_lex(w, c):
+    """sa = [fmt string, name1, name2 or '', sep]; ia = [group bits, width, no_color, two formats, show_offset]"""
+    fmt, n1, n2, sep = c['sa'][0], c['sa'][1], c['sa'][2], c['sa'][3]
+    gbits, width, nocolor, two, show_offset = c['ia'][:5]
+    t = T(w, c)
+    out = io.StringIO()
+    old = w.bs.options.no_color
+    w.bs.options.no_color = bool(nocolor)
+    try:
+        t.pp(fmt if fmt else None, width=width, sep=sep, show_offset=bool(show_offset), stream=out)
+    finally:
+        w.bs.options.no_color = old
+    text = out.getvalue()
+    esc = text.count('\x1b')
+    plain = _ANSI.sub('', text)
+    lines = plain.split('\n')
+    if lines and lines[-1] == '':
+        lines = lines[:-1]
+    header, body, tail = lines[0], lines[1:-1], lines[-1]
+    if not header.startswith('<') or not tail.startswith(']'):
+        return enc.OPAQUE
+    trailing = []
+    if 'trailing_bits' in tail:
+        lit = tail.split('=', 1)[1].strip()
+        for tok in _lex_literals(lit):
+            wd = {4: 4, 5: 3, 6: 1}[tok[0]]
+            for d in tok[1:]:
+                trailing += [(d >> (wd - 1 - k)) & 1 for k in range(wd)]
+    lsb0 = bool(w.bs.options.lsb0)
+    tag1 = _RADIX[n1][0]
+    d1, d2, groups1, linelens, perline = [tag1], [_RADIX[n2][0]] if n2 else [6], [11], [11], [11]
+    for ln in body:
+        linelens.append(len(ln))
+        content = ln
+        if show_offset:
+            if lsb0:
+                content = ln.rsplit(' :', 1)[0]
+            else:
+                content = ln.split(': ', 1)[1] if ': ' in ln else ln
+        parts = content.split(' : ') if n2 else [content]
+        g1 = _lex_part(parts[0], n1, sep)
+        if lsb0:
+            pass
+        for g in g1:
+            d1 += g
+            groups1.append(len(g))
+        perline.append(len(g1))
+        if n2 and len(parts) > 1:
+            for g in _lex_part(parts[1], n2, sep):
+                d2 += g
+    return Multi([[9, esc], d1, d2, groups1, linelens, perline, [6] + trailing], ['raw'] * 7)
